@@ -6,7 +6,9 @@ run on the deterministic loop; the controller's task.cancel() arrives from timer
 front/back of the ready queue of a chosen loop iteration.  The Coq model interprets the same program with the same
 controller schedule and must produce the same trace.
 
-Case (sx):  [prog, [timer ticks], [[iteration, front?]...], K, fuel]
+Case (sx):  [prog, [timer ticks], [[iteration, front?] | [iteration, front?, act]...], K, fuel]
+  act 0 (default): the controller's task.cancel(); act k+1: a step of ANOTHER task (a sibling created by the harness)
+  that calls cancel() on the host's k-th enclosing active scope (asyncio.current_task() is that sibling)
   prog:  [0] skip | [1,p,q] seq | [2,id,d] sleep d ticks | [3,id] coro_yield | [4,id] cancel_shielded_coro_yield
        | [5,d] block (clock += d, no yield) | [6,id,kind,pre,[delay]|[],body] scope (kind 0 move_on_after /
          open_cancel_scope when no delay, 1 timeout; pre = cancel() before __enter__) | [7,id,body] ignore_cancellation
@@ -19,7 +21,8 @@ Output: [[events], outcome, task.cancelling()]; events [0,id,t] start, [1,id,t] 
   cancelled_caught,cancelling,swallowed-or-TimeoutError-raised,exc-class-given-to-__exit__], [3,id,t,exc] caught,
   [4,t,n,sh] the controller's task.cancel() returned True while n active scopes already had cancel_called (sh: the
   program was inside ignore_cancellation / a shielded yield),
-  [5,id,t] the program called cancel() on the scope opened by statement id, [6,id,t,[deadline]|[]] .reschedule().
+  [5,id,t] the program called cancel() on the scope opened by statement id, [6,id,t,[deadline]|[]] .reschedule(),
+  [7,id,t] another task called cancel() on that scope.
 """
 from __future__ import annotations
 
@@ -225,6 +228,7 @@ class _Loop(detloop.DetLoop):
         super().__init__(max_steps=MAX_LOOP_STEPS)
         self.K, self.turns = K, turns
         self.iterno, self.spin, self.target = 0, 0, None
+        self.actors = []
         sel = self._selector
         orig = sel.select
 
@@ -250,12 +254,25 @@ class _Loop(detloop.DetLoop):
             self.env.events.append([4, int(t), sum(1 for sc in self.env.scopes if sc.cancel_called()),
                                     self.env.shielded > 0])
 
+    async def actor(self, k):
+        env = self.env
+        if k < len(env.scopes):
+            env.scopes[-1 - k].cancel()
+            t = self.time() / TICK
+            assert t == int(t), t
+            env.events.append([7, env.scope_ids[-1 - k], int(t)])
+
     def _run_once(self):
         self.iterno += 1
         if self.target is not None:
-            for n, front in self.turns:
+            for n, front, act in self.turns:
                 if n == self.iterno:
-                    h = asyncio.Handle(self.controller, (), self)
+                    if act == 0:
+                        h = asyncio.Handle(self.controller, (), self)
+                    else:
+                        # a sibling task whose only step calls scope.cancel(): take the handle of its first step
+                        self.actors.append(self.create_task(self.actor(act - 1)))
+                        h = self._ready.pop()
                     if front:
                         self._ready.appendleft(h)
                     else:
@@ -388,7 +405,7 @@ def run_raw(inp):
     from easynetwork.lowlevel.api_async.backend._asyncio.backend import AsyncIOBackend
 
     prog, timers, turns, K = inp[0], inp[1], inp[2], inp[3]
-    loop = _Loop(K, [(n, bool(f)) for n, f in turns])
+    loop = _Loop(K, [(t[0], bool(t[1]), t[2] if len(t) > 2 else 0) for t in turns])
     try:
         asyncio.set_event_loop(loop)
         loop.set_exception_handler(lambda _loop, _ctx: None)
@@ -659,7 +676,7 @@ def wrap(p, ids):
 
 def nontrivial_of(inp, out):
     evs = out[0]
-    return bool(any(e[0] == 2 and e[3] for e in evs) or any(e[0] in (3, 4) for e in evs) or out[1] != 0)
+    return bool(any(e[0] == 2 and e[3] for e in evs) or any(e[0] in (3, 4, 7) for e in evs) or out[1] != 0)
 
 
 def tags_of(p, inp, sched_tag, src):
@@ -684,6 +701,13 @@ def schedules(p, K, rng, exhaustive, nsample):
         yield [p, [t], [], K, FUEL], "ctl-timer", None
     for n, f in turn_pos:
         yield [p, [], [[n, f]], K, FUEL], "ctl-turn-front" if f else "ctl-turn-back", None
+    if features(p)["scope"]:
+        actor_pos = [(n, f) for n in range(1, min(iters, 40) + 1) for f in (1, 0)]
+        if not exhaustive:
+            rng.shuffle(actor_pos)
+            actor_pos = actor_pos[: max(1, nsample // 3)]
+        for n, f in actor_pos:
+            yield [p, [], [[n, f, 1 if exhaustive or rng.random() < 0.7 else 2]], K, FUEL], "actor-cancel", None
     if not exhaustive and rng.random() < 0.3 and iters > 2:
         a, b = sorted(rng.sample(range(1, iters + 1), 2))
         yield [p, [], [[a, rng.randrange(2)], [b, rng.randrange(2)]], K, FUEL], "ctl-two", None
@@ -859,6 +883,20 @@ def oracle(inp):
                     kind += "-no-scope-was-cancelled"
                 return (f"{kind}: statement {e[1]} completed at tick {e[2]} after the controller's task.cancel() had "
                         f"been accepted (scopes that swallowed / raised TimeoutError: {swallowed})")
+    # once ANOTHER task has called cancel() on a scope, no blocking statement inside it completes any more -- not even
+    # one whose future had just been made ready (programs without shields: no postponed-cancellation window)
+    if not _has(prog, (4, 7)):
+        hit = set()
+        for e in evs:
+            if e[0] == 7:
+                hit.add(e[1])
+            elif e[0] == 2:
+                hit.discard(e[1])
+            elif e[0] == 1 and e[1] in nodes and nodes[e[1]][0][0] in (2, 3, 11):
+                which = [q[1] for q in nodes[e[1]][1] if q[0] == 6 and q[1] in hit]
+                if which:
+                    return (f"completed-after-foreign-cancel: statement {e[1]} completed at tick {e[2]} inside scope(s) "
+                            f"{which} after another task had called cancel() on them")
     # once the program called cancel() on a scope, no blocking statement inside it and outside every shield that STARTS
     # afterwards completes
     # (the unchanged code itself lets a cancelled scope fall silent when, while a foreign cancellation postponed by a
